@@ -115,6 +115,30 @@ type Model struct {
 	Msgs     []*Msg
 	DNS      map[string]bool
 	NameChg  bool
+	// Lookup, set by the engine, reads a raw storage value of the real ledger (pre-state).  The model uses it only for
+	// what the statements leave open: the bytes of an entry besides amount and metadata (Type, Properties, Reserved)
+	// travel in an NFT payload and so contribute to its priced length.
+	Lookup func(shard int, addr []byte, key string) []byte
+}
+
+// storedExtras returns Type, Properties and Reserved of the entry as actually stored (zero values when absent).
+func (m *Model) storedExtras(shard int, addr []byte, suffix string, hasMeta bool) (uint32, []byte, []byte) {
+	typ := uint32(0)
+	if hasMeta {
+		typ = uint32(vmcommon.NonFungible)
+	}
+	if m.Lookup == nil {
+		return typ, nil, nil
+	}
+	raw := m.Lookup(shard, addr, pfxESDT+suffix)
+	if len(raw) == 0 {
+		return typ, nil, nil
+	}
+	t, err := RefDecodeToken(raw)
+	if err != nil {
+		return typ, nil, nil
+	}
+	return t.Type, t.Properties, t.Reserved
 }
 
 func NewModel(n int) *Model {
